@@ -95,7 +95,7 @@ pub fn run(h: &Ev, evs: &mut Vec<Value>) {
             let m = slots[x].as_mut().expect("harness: dead slot").mac();
             match op.as_str() {
                 "input" => {
-                    m.input(&get_bytes(&e, "data"));
+                    m.input(get_placed(&e, "data", "off").get());
                     Out::None
                 }
                 "result" => Out::Val(m.result().code().to_vec()),
